@@ -57,6 +57,12 @@ def run(ck, prog):
     for h, bl in loops:
         nxt = [i for i in bl if b.term(i)["k"] == "call" and re.search(r"Iterator>::next$", Body.callee(b.term(i)) or "")]
         ins = [i for i in bl if b.term(i)["k"] == "call" and re.search(r"HashMap::<[^>]*>::insert$", Body.callee(b.term(i)) or "")]
+        if not ins:
+            # `map.entry(file).or_default()` / `.or_insert(..)` / `.or_insert_with(..)` creates the entry as well
+            ent = [i for i in bl if b.term(i)["k"] == "call" and re.search(r"HashMap::<[^>]*>::entry$", Body.callee(b.term(i)) or "")]
+            mk = [i for i in bl if b.term(i)["k"] == "call" and re.search(r"Entry::<[^>]*>::(or_default|or_insert|or_insert_with)$", Body.callee(b.term(i)) or "")]
+            if ent and mk and all(any(x[0] == "call" and x[2] in ent for x in prov.origins(b, b.term(m)["args"][0])) for m in mk):
+                ins = ent
         if not nxt or not ins:
             continue
         io = prov.origins(b, b.term(nxt[0])["args"][0])
@@ -68,6 +74,22 @@ def run(ck, prog):
         adaptors = [Body.callee(t) for _, t in b.calls() if re.search(r"Iterator::(filter|take|skip|step_by|take_while|skip_while|filter_map)$", Body.callee(t) or "")]
         if from_files and key_is_elem and skip is None and not adaptors:
             seeded = True
+    if not seeded:
+        # closure form: iter_files().for_each(|file| { map.insert(file, ..) / map.entry(file).or_default() })
+        for i, tt in b.calls():
+            c = Body.callee(tt) or ""
+            if not c.endswith("Iterator::for_each"):
+                continue
+            if not any(x[0] == "call" and x[1].endswith("SourceRoot::iter_files") for x in prov.origins(b, tt["args"][0])):
+                continue
+            for ga in (tt["f"].get("args") or []):
+                cb = prog.body(ga.get("closure")) if isinstance(ga, dict) and ga.get("closure") else None
+                if cb is None:
+                    continue
+                w = [j for j, t2 in cb.calls() if re.search(r"HashMap::<[^>]*>::(insert|entry)$", Body.callee(t2) or "")]
+                if w and all(all(x[0] == "arg" and x[1] == 2 for x in prov.origins(cb, cb.term(j)["args"][1])) for j in w) and \
+                        cfg.path_exists(cb, 0, lambda x: cb.term(x)["k"] == "return", avoid=set(w), include_src=True) is None:
+                    seeded = True
     ck.ob("R11.1", "seed-all-files", seeded,
           "a loop over SourceRoot::iter_files() inserts an entry for every element unconditionally",
           msg="diagnostics::exec does not seed an entry for every file of the source root: a file that became clean "
